@@ -371,6 +371,11 @@ func buildMessage(sp *saml2.SAMLServiceProvider, in *oInput, st *oStrings) (out 
 	var err error
 	switch in.Kind {
 	case "authn":
+		if in.Via == "doc" && in.SignReq {
+			// the string form: BuildAuthRequest() is BuildAuthRequestDocument() + WriteToString()
+			s, serr := sp.BuildAuthRequest()
+			return builtMsg{doc: []byte(s), err: serr}
+		}
 		doc, err = sp.BuildAuthRequestDocument()
 	case "logoutReq":
 		doc, err = sp.BuildLogoutRequestDocument(st.NameID, st.SessionIndex)
